@@ -2,7 +2,7 @@
 """run the owning property's check (and all others) against every stored seeded change; print a matrix"""
 import json, os, subprocess, sys
 rows = []
-for name in sorted(os.listdir("/verif/seeded")):
+for name in sorted(n for n in os.listdir("/verif/seeded") if os.path.isdir(f"/verif/seeded/{n}")):
     d = f"/verif/seeded/{name}"
     meta = json.load(open(f"{d}/meta.json"))
     subprocess.check_call(["git", "-C", "/repo", "apply", f"{d}/patch.diff"])
